@@ -384,6 +384,53 @@ fn end_to_end(rep: &mut Report, reference: &Reference, p: &Pair, index: u64) {
     }
 }
 
+/// One verifier (and one client) reused for a whole sequence of pairs: a verdict must not depend on
+/// what was accepted before. For every multi-label rule R of the list whose parent has a registrable
+/// domain D: first the pair (https://D, RP ID absent), which is accepted, then a pair whose RP ID is
+/// the public suffix R itself (below D), then is_valid_rp_id(R).
+fn reused_verifier(rep: &mut Report, reference: &Reference, log: &std::sync::Arc<Log>, psl: &RefPsl, thorough: bool) {
+    let verifier = RpIdVerifier::new(RecTld::default_list(log.clone()));
+    let mut k = 0u64;
+    for r in psl.rules.iter() {
+        if r.kind == RuleKind::Exception || r.ascii.split('.').count() < if r.kind == RuleKind::Wildcard { 2 } else { 3 } {
+            continue;
+        }
+        if !thorough && r.line % 3 != 0 && r.kind == RuleKind::Normal {
+            continue;
+        }
+        let suffix = if r.kind == RuleKind::Wildcard { format!("zq.{}", r.ascii) } else { r.ascii.clone() };
+        let parent = if r.kind == RuleKind::Wildcard { r.ascii.clone() } else { r.ascii.split_once('.').map(|x| x.1.to_string()).unwrap_or_default() };
+        let Ok(d) = psl.etld_plus_one(&parent) else { continue };
+        let d = d.to_string();
+        k += 1;
+        rep.eval();
+        let first = Pair { android: false, origin: format!("https://{d}"), rp: None, localhost: false, custom: false, tag: "verifier-reuse-first" };
+        let second = Pair { android: false, origin: format!("https://bucket.{suffix}"), rp: Some(suffix.clone()), localhost: false, custom: false, tag: "verifier-reuse-then" };
+        let case = json!({"index": 20_000_000 + k, "part": "one verifier reused", "first": first.json(), "then": second.json()});
+        let run = |p: &Pair| -> Result<Result<String, String>, (String, String)> {
+            catch(|| {
+                let u = url::Url::parse(&p.origin).map_err(|e| format!("url: {e}"))?;
+                verifier.assert_domain(&Origin::from(&u), p.rp.as_deref()).map(|s| s.to_string()).map_err(|e| format!("{e:?}"))
+            })
+        };
+        for p in [&first, &second] {
+            match (run(p), reference.judge(p)) {
+                (Err((sig, d)), _) => rep.violate(&format!("assert_domain {sig}"), d, case.clone()),
+                (Ok(Ok(id)), RefVerdict::Reject(why)) => rep.violate(&format!("web: accepted a pair the statement rejects: {why} (the same verifier had just accepted another pair)"), format!("assert_domain returned Ok({id:?})"), case.clone()),
+                (Ok(Ok(_)), RefVerdict::Accept(_)) => rep.count("reused_verifier_accepts"),
+                (Ok(Err(_)), RefVerdict::Reject(_)) => rep.count("reused_verifier_rejects"),
+                _ => {}
+            }
+        }
+        if let Ok(valid) = catch(|| verifier.is_valid_rp_id(&suffix)) {
+            if valid {
+                rep.violate("is_valid_rp_id accepts a public suffix (the same verifier had just accepted a pair above it)", suffix.clone(), case.clone());
+            }
+        }
+        rep.nontrivial(fnv_str(&format!("reuse|{suffix}")));
+    }
+}
+
 fn char_suffixes(host: &str) -> Vec<String> {
     // every proper suffix of the host that does not start at a label boundary
     let mut v = Vec::new();
@@ -581,7 +628,10 @@ pub fn run(args: &Args) -> Report {
             k += 1;
         }
     }
-    if replay_index.is_none() && (rep.get("accepted") == 0 || rep.get("e2e_register_ok") == 0 || rep.get("e2e_register_rejected") == 0) {
+    if replay_index.is_none() {
+        reused_verifier(&mut rep, &reference, &log, &psl, args.thorough());
+    }
+    if replay_index.is_none() && (rep.get("reused_verifier_rejects") == 0 || rep.get("accepted") == 0 || rep.get("e2e_register_ok") == 0 || rep.get("e2e_register_rejected") == 0) {
         rep.inconclusive("no accepted pair / no end-to-end accept / no end-to-end reject was observed".into());
     }
     rep
